@@ -2,7 +2,7 @@
    Property theorems only: each is closed by [exact] of a lemma from L_Combine and followed by
    Print Assumptions.  [lin g i ss] is the sum of column i over the samples selected by g; with
    g = "entry e is the leaf" / "entry e is on the stack" it is the flat / cum number of entry e. *)
-From Coq Require Import QArith.
+From Coq Require Import QArith Qabs.
 From PV Require Import M_Combine S_Measure L_Measure S_Combine L_Combine Gen.Gen_UnitTable.
 Open Scope Z_scope.
 
@@ -105,6 +105,24 @@ Theorem compat_aligns_columns : forall st p p',
                    /\ nth j (p_sampletype p') dummy_vt = nth i (p_sampletype p) dummy_vt.
 Proof. exact compat_aligns_lemma. Qed.
 Print Assumptions compat_aligns_columns.
+
+(* -- -normalize: ScaleN on a scaled column changes the column total to ratio * total within half a
+      unit per sample (no F4 hypothesis: a dropped sample has 0 in every scaled column); with the ratio
+      Normalize uses (base total / source total) the source total becomes the base total +- n/2 -- *)
+Theorem scale_n_total_close : forall rs p i r,
+  nth_error rs i = Some r -> is_one r = false ->
+  (Qabs (inject_Z (lin (fun _ => true) i (p_sample (scale_n keep_written rs p))) - r * inject_Z (lin (fun _ => true) i (p_sample p)))
+   <= inject_Z (Z.of_nat (List.length (p_sample p))) / 2)%Q.
+Proof. exact L_Combine.scale_n_total_close. Qed.
+Print Assumptions scale_n_total_close.
+
+Theorem normalize_total_partial : forall rs p i B,
+  let S := lin (fun _ => true) i (p_sample p) in
+  S <> 0 -> nth_error rs i = Some (inject_Z B / inject_Z S)%Q -> is_one (inject_Z B / inject_Z S) = false ->
+  (Qabs (inject_Z (lin (fun _ => true) i (p_sample (scale_n keep_written rs p))) - inject_Z B)
+   <= inject_Z (Z.of_nat (List.length (p_sample p))) / 2)%Q.
+Proof. exact normalize_total_partial_lemma. Qed.
+Print Assumptions normalize_total_partial.
 
 (* -- statements kept in full but NOT proved here (fallback ladder of DESIGN 5.22): each is covered on
       every run by the correspondence of the executable model with the implementation and by the
